@@ -16,6 +16,7 @@ const (
 var (
 	ErrIndexCorrupted    = errors.New("index is corrupted")
 	ErrBadSchema         = errors.New("schema must be a file")
+	ErrMalformedSchema   = errors.New("malformed schema")
 	ErrMissingObjIndex   = errors.New("schema is missing object index")
 	ErrStructureChanged  = errors.New("object structure changed")
 	ErrExtensionMismatch = errors.New("extension mismatch")
